@@ -94,3 +94,21 @@ Qed.
 Example ex_quota :
   map (quota_of (mkgrp false 3 100 1 false 1 60 [])) [row_sz 0 10 0 1 0; row_sz 1 20 0 1 0; row_sz 2 30 0 1 0] = [16; 33; 50].
 Proof. vm_compute. reflexivity. Qed.
+
+(* F-C05b: no fixed budget is exceeded: metric 2 (size 5) is over its share of the bucket budget 2 and breaks the first
+   loop; metric 1 (size 10, within its own fixed budget 15) is sorted after it, goes through sampler.sample and is kept
+   for every draw with SF = 10/15 *)
+Definition fc05b_rows := [row_sz 0 10 0 1 15; row_sz 1 5 0 2 0].
+Definition fc05b_out := mkout 0 true (inject_Z 10 / inject_Z 15)%Q 10.
+Theorem kept_factor_refuted_fixed_within_budget : exists c ord rf selu budget rows dr o,
+  c_fix c = false /\ ord_ok ord /\ Forall (fun r => r_budget r = 0 \/ sum_size (filter (fun r' => r_metric r' =? r_metric r) rows) <= r_budget r) rows /\
+  In o (run_all c ord (sel_random selu) rf budget rows dr) /\ ~ unbiased selu o.
+Proof.
+  exists (cfg_budgets false), whale_ord, rf_det, (fun _ => 0%Q), 2, fc05b_rows, [], fc05b_out.
+  split; [reflexivity|]. split; [apply whale_ord_ok|]. split.
+  - constructor; [right; vm_compute; discriminate|]. constructor; [left; reflexivity|]. constructor.
+  - split; [vm_compute; auto|]. intros [[_ H]|[[H _]|[H _]]]; vm_compute in H; discriminate.
+Qed.
+Example repaired_on_witness_b :
+  In (mkout 0 true 1%Q 10) (run_all (cfg_budgets true) whale_ord (sel_random (fun _ => 0%Q)) rf_det 2 fc05b_rows []).
+Proof. vm_compute. auto. Qed.
